@@ -582,3 +582,51 @@ func TestC17_Replay(t *testing.T) {
 		}
 	}
 }
+
+// TestC17_ParseExhaustive applies the generic invariant (known scheme, non-empty host, port
+// range, transport, format/parse round trip) to EVERY string over the 20-symbol alphabet of
+// C16 up to a length bound after each scheme prefix.
+func TestC17_ParseExhaustive(t *testing.T) {
+	rec := evid.For("C17")
+	c17Notes(rec)
+	maxLen := evid.Pick(4, 5)
+	shard, nshards := evid.Shard()
+	loc := evid.NewLocal()
+	var idx int64
+	var failed bool
+	var walk func(s string, depth int) bool
+	walk = func(s string, depth int) bool {
+		idx++
+		if int(idx%int64(nshards)) == shard {
+			c := c17Parse{Raw: s}
+			u, err := stun.ParseURI(s)
+			loc.Case("exhaustive", evid.NewH().Str(s).Sum(), err == nil)
+			if err == nil {
+				if ierr := genericInvariant(u); ierr != nil {
+					pbt.Fail(t, rec, "parse", c, "ParseURI(%q) accepted %+v: %v", s, *u, ierr)
+					failed = true
+
+					return false
+				}
+			}
+		}
+		if depth == maxLen {
+			return true
+		}
+		for _, a := range c16Alphabet {
+			if !walk(s+a, depth+1) {
+				return false
+			}
+		}
+
+		return true
+	}
+	for _, p := range c16Prefixes[:4] {
+		if !walk(p, 0) {
+			break
+		}
+	}
+	rec.Merge(loc)
+	rec.Note("exhaustive_max_suffix_length", maxLen)
+	rec.Exhaustive(fmt.Sprintf("generic invariant on all strings over the 20-symbol alphabet up to length %d after each scheme", maxLen), !failed)
+}
